@@ -148,6 +148,16 @@ func VerifC42Upgrade() {
 	if vrt.Bool("expiredObjectStored") {
 		_ = db.Put(vmObj(0, 4, object.TypeRegular, 2, 5))
 	}
+	// more associated-object entries than one migration batch takes (the batch
+	// size is shrunk to 2 keys in the overlay copy of version.go), so that a
+	// batch ends inside the container bucket and the next one resumes there
+	if vrt.Bool("moreAssociatedObjectsThanOneBatch") {
+		for _, o := range []byte{5, 6, 7} {
+			l := vmObj(0, o, object.TypeLock, 20, 0)
+			l.AssociateLocked(vmOID(9))
+			vrt.Assert(db.Put(l) == nil, "setup lock")
+		}
+	}
 	_ = db.boltDB.Update(func(tx *bbolt.Tx) error { return updateVersion(tx, currentMetaVersion) })
 	want := c42dump(db)
 
